@@ -66,7 +66,7 @@ macro_rules! unchecked_new {
             }
             let want = match sep { None => false, Some(p) => p >= 1 && hrp_ok && data_ok && !(up && lo) };
             assert!(r.is_ok() == want);
-            if N >= 2 { kani::cover!(r.is_ok()); }
+            kani::cover!(N < 2 || r.is_ok());
             kani::cover!(r.is_err());
         });
     };
@@ -105,7 +105,7 @@ macro_rules! checked_new {
         total!($name, $n, $unw, |s| CheckedHrpstring::new::<$ck>(s), |r, _a| {
             // fewer than 1 + 1 + 12 characters can never carry a 12-character checksum
             if N < 14 { assert!(r.is_err()); }
-            if N >= 2 { kani::cover!(matches!(r, Err(CheckedHrpstringError::Checksum(ChecksumError::InvalidChecksumLength)))); }
+            kani::cover!(N < 2 || matches!(r, Err(CheckedHrpstringError::Checksum(ChecksumError::InvalidChecksumLength))));
             kani::cover!(matches!(r, Err(CheckedHrpstringError::Parse(_))));
         });
     };
@@ -137,9 +137,9 @@ macro_rules! segwit_new {
     ($name:ident, $n:expr, $unw:literal) => {
         total!($name, $n, $unw, |s| SegwitHrpstring::new(s), |r, _a| {
             if N < 15 { assert!(r.is_err()); } // hrp + '1' + version + 12 checksum chars at least
-            if N >= 2 { kani::cover!(matches!(r, Err(SegwitHrpstringError::MissingWitnessVersion))); }
-            if N >= 3 { kani::cover!(matches!(r, Err(SegwitHrpstringError::InvalidWitnessVersion(_)))); }
-            if N >= 3 { kani::cover!(matches!(r, Err(SegwitHrpstringError::Checksum(_)))); }
+            kani::cover!(N < 2 || matches!(r, Err(SegwitHrpstringError::MissingWitnessVersion)));
+            kani::cover!(N < 3 || matches!(r, Err(SegwitHrpstringError::InvalidWitnessVersion(_))));
+            kani::cover!(N < 3 || matches!(r, Err(SegwitHrpstringError::Checksum(_))));
             kani::cover!(matches!(r, Err(SegwitHrpstringError::Unchecked(_))));
         });
     };
@@ -179,8 +179,8 @@ macro_rules! segwit_new_bech32_nonempty {
             let s: &str = match core::str::from_utf8(&a) { Ok(s) => s, Err(_) => { assert!(false); return; } };
             let r = SegwitHrpstring::new_bech32(s);
             assert!(r.is_err()); // N < 15
-            if N >= 3 { kani::cover!(matches!(r, Err(SegwitHrpstringError::InvalidWitnessVersion(_)))); }
-            if N >= 3 { kani::cover!(matches!(r, Err(SegwitHrpstringError::Checksum(_)))); }
+            kani::cover!(N < 3 || matches!(r, Err(SegwitHrpstringError::InvalidWitnessVersion(_))));
+            kani::cover!(N < 3 || matches!(r, Err(SegwitHrpstringError::Checksum(_))));
             kani::cover!(matches!(r, Err(SegwitHrpstringError::Unchecked(_))));
             core::mem::forget(r);
         }
@@ -205,7 +205,7 @@ macro_rules! segwit_new_bech32 {
     ($name:ident, $n:expr, $unw:literal) => {
         total!($name, $n, $unw, |s| SegwitHrpstring::new_bech32(s), |r, _a| {
             assert!(r.is_err());
-            if N >= 2 { kani::cover!(matches!(r, Err(SegwitHrpstringError::MissingWitnessVersion))); }
+            kani::cover!(N < 2 || matches!(r, Err(SegwitHrpstringError::MissingWitnessVersion)));
             kani::cover!(matches!(r, Err(SegwitHrpstringError::Unchecked(_))));
         });
     };
